@@ -9,7 +9,7 @@ from props._script import run_script_property
 
 def run():
     chk = run_script_property(
-        "C02", "model_checking", kinds=["neareq", "small", "random"],
+        "C02", "model_checking", kinds=["neareq", "small", "random", "huge", "records", "mixedkeys", "wide"],
         extra_rule="C02 adds the near-equality generator: half of its pairs are equal (identity + key permutation at "
                    "all depths), half differ by one atomic perturbation (scalar type change keeping the text, one "
                    "character, string <-> empty string, swap of two unequal list elements, added/removed empty "
